@@ -32,6 +32,15 @@ for sid in sys.argv[1:]:
     try:
         rc, out = sh(f"git apply {d}/patch.diff", cwd=wt)
         if rc != 0:
+            # only the context moved (a later fix: commit changed a neighbouring line)? a three-way merge settles that
+            rc3, out3 = sh(f"git apply --3way {d}/patch.diff", cwd=wt)
+            if rc3 == 0 and "with conflicts" not in out3 and not sh("git diff --name-only --diff-filter=U", cwd=wt)[1].strip():
+                rc = 0
+                rec["applied_3way"] = True
+                sh("git reset -q", cwd=wt)
+            else:
+                sh("git checkout -q -- . ; git reset -q --hard", cwd=wt)
+        if rc != 0:
             # a later fix: commit touched the same lines: fall back to the /repo commit the change was confirmed at
             # (the checks are run in their current state against that older tree + the change)
             base = (meta.get("confirmation") or {}).get("checked_at_repo_head")
